@@ -115,8 +115,10 @@ def model_check(tier, mutant="none", topics=TOPICS):
     """Exhaustive MC of GossipVal per topic. Returns {topic: TLCResult}."""
     def one(t):
         wd = lib.fresh_spec_copy()
-        cfg = ("SPECIFICATION Spec\nCONSTANTS\n  Topic = \"%s\"\n  KeyUniverse = {\"a\", \"b\"}\n  Mutant = \"%s\"\n"
-               "INVARIANTS\n  NoViolation\n  SeenIsAccepted\n  TypeOK\n" % (t, mutant))
+        # quick: 2 keys per cache; thorough: 3 keys (2 for the 14-condition aggregate topic)
+        keys = '{"a", "b", "c"}' if (tier == "thorough" and t != "agg") else '{"a", "b"}'
+        cfg = ("SPECIFICATION Spec\nCONSTANTS\n  Topic = \"%s\"\n  KeyUniverse = %s\n  Mutant = \"%s\"\n"
+               "INVARIANTS\n  NoViolation\n  SeenIsAccepted\n  TypeOK\n" % (t, keys, mutant))
         open(os.path.join(wd, "mcg.cfg"), "w").write(cfg)
         res = lib.tlc("MC_GossipVal", cfg="mcg.cfg", workdir=wd, workers=4 if t == "agg" else 1, timeout=1500)
         shutil.rmtree(wd, ignore_errors=True)
@@ -348,7 +350,7 @@ def run_check(pid, tier, seed, replay=None):
         "model_checking": mc_info,
         "exhaustive": False,
         "exhaustive_part": "MC_GossipVal per topic: every truth assignment to the topic's conditions x every key "
-                           "combination over 2 keys per cache (attester slashing: every non-empty subset) x every allowed "
+                           "combination over 2 keys per cache (thorough: 3, aggregate topic 2; attester slashing: every non-empty subset) x every allowed "
                            "verdict from every reachable cache state (message sequences of any length); invariants "
                            "accept-invalid, dup-after-accept, suppressed, mark-on-refuse, timing-reject",
         "known_deviations_enabled": deviations, "deviations_used": dict(res.dev_used),
@@ -414,17 +416,22 @@ def selftest():
     corrupted("timing failure logged as REJECT", lambda e: e["ev"] == "Msg" and e["topic"] == "att" and e["desc"] == "head:unknown",
               lambda e: e.update(verdict="REJECT"))
     # dropping the Reset between two histories that use the same key makes the second start with a marked cache
-    first_h = {}
     target = None
+    accepted = set()
     for i, e in enumerate(events):
-        if e["ev"] == "Msg" and e["verdict"] == "ACCEPT":
-            k = (e["topic"], json.dumps(e["key"], sort_keys=True))
-            if k in first_h and first_h[k] != e["h"] and events[i - 1]["ev"] == "Reset" and events[i - 1]["h"] == first_h[k] + 1:
-                target = i - 1
+        if e["ev"] == "Reset":
+            nxt = events[i + 1] if i + 1 < len(events) else None
+            if nxt and nxt["ev"] == "Msg" and (nxt["topic"], json.dumps(nxt["key"], sort_keys=True)) in accepted:
+                target = i
                 break
-            first_h.setdefault(k, e["h"])
+            accepted = set()
+        elif e["verdict"] == "ACCEPT":
+            accepted.add((e["topic"], json.dumps(e["key"], sort_keys=True)))
     if target is not None:
         corrupted("Reset dropped between two histories with the same key", target, None)
+    else:
+        lib.log("selftest: no adjacent histories with a common key in this recording")
+        ok = False
 
     # (2) design mutants violate the invariants
     for mutant, topic in (("mark-on-ignore", "att"), ("mark-before-last", "block"), ("reject-timing", "syncmsg")):
